@@ -185,6 +185,22 @@ RETURN_OPCODES = {
     if name in opcode.opmap
 }
 
+RESUME_OPCODE = opcode.opmap.get("RESUME")  # Python 3.11+
+
+
+def _is_resumption(frame: FrameType) -> bool:
+    """Does this 'call' event resume a suspended generator or coroutine (as opposed to a new call)?"""
+    lasti = frame.f_lasti
+    if RESUME_OPCODE is None or lasti < 0:
+        return False
+    code = frame.f_code.co_code
+    if code[lasti] == RESUME_OPCODE:
+        # the oparg of RESUME is 0 only at the start of a function
+        return (code[lasti + 1] & 3) != 0
+    # an exception is being thrown into a generator suspended at a yield
+    return bool(code[lasti] == YIELD_VALUE_OPCODE)
+
+
 # A CodeFilter is a predicate that decides whether or not a the call for the
 # supplied code object should be traced.
 CodeFilter = Callable[[CodeType], bool]
@@ -229,6 +245,9 @@ class CallTracer:
         return self.cache[code]
 
     def handle_call(self, frame: FrameType) -> None:
+        if frame not in self.traces and _is_resumption(frame):
+            # a generator whose first call was not sampled; never start a trace in the middle of its life
+            return
         if self.sample_rate and random.randrange(self.sample_rate) != 0:
             return
         func = self._get_func(frame)
